@@ -53,12 +53,14 @@ namespace nmtools::view
             auto dst_indices = pack_indices(indices...);
             auto src_indices = indexer.indices(dst_indices);
             if constexpr (meta::is_pointer_v<array_type>) {
+                NMTOOLS_VERIF_EVENT(verif::check_indices(verif::VIEW_INDEX_MUT,src_indices,nmtools::shape(*array)));
                 return apply_at(*array,src_indices);
             } else if constexpr (is_none_v<decltype(src_indices)>) {
                 static_assert( meta::is_num_v<array_type>
                     , "invalid source array for mutable_indexing view" );
                 return array;
             } else {
+                NMTOOLS_VERIF_EVENT(verif::check_indices(verif::VIEW_INDEX_MUT,src_indices,nmtools::shape(array)));
                 return apply_at(array,src_indices);
             }
         }
@@ -71,8 +73,10 @@ namespace nmtools::view
             static_assert( !meta::is_num_v<decltype(src_indices)>
                 , "mutable_indexing view doesn't support assignment to scalar type!" );
             if constexpr (meta::is_pointer_v<array_type>) {
+                NMTOOLS_VERIF_EVENT(verif::check_indices(verif::VIEW_INDEX_MUT,src_indices,nmtools::shape(*array)));
                 return apply_at(*array,src_indices);
             } else {
+                NMTOOLS_VERIF_EVENT(verif::check_indices(verif::VIEW_INDEX_MUT,src_indices,nmtools::shape(array)));
                 return apply_at(array,src_indices);
             }
         }
